@@ -43,6 +43,18 @@ theorem lane0_eq_sorted_insert {β : Type} (sl : SkipList β) (inv : LanesInv sl
     ((sl.delete score).2 = true ↔ ∃ n ∈ sl.nodes, n.score = score) :=
   ⟨insert_nodes sl inv score v lvl, (delete_nodes sl inv score).1, (delete_nodes sl inv score).2⟩
 
+/-- **update_array_correct**: in `Insert`, for every lane `i < sl.level` there is no lane-`i` node
+between `update[i]` and the insertion point (`UpdOK` lists `update[level-1] … update[0]`), so the
+pointer splice `x.next[i] = update[i].next[i]; update[i].next[i] = x` on each lane `i < lvl` produces
+exactly lane `i` of the model's list (insert on the bottom lane, lanes by level filter). -/
+theorem update_array_correct {β : Type} (sl : SkipList β) (inv : LanesInv sl) (score : Int) :
+    UpdOK (sl.nodes.takeWhile (fun n => decide (n.score ≥ score))) sl.level
+      (updates (fun s => decide (s ≥ score)) sl.nodes sl.level 0) :=
+  insert_updates_ok sl inv score
+
+example : updates (fun s => decide (s ≥ 6)) ([⟨9, 2, ()⟩, ⟨7, 1, ()⟩, ⟨5, 3, ()⟩] : List (Node Unit)) 3 0
+    = [0, 1, 2] := by decide
+
 /-- **find_correct**: the descending multi-lane search stops exactly behind the nodes with a greater
 score (the position a linear scan of the bottom lane finds); `Find` returns the first node with
 that score, `FindGreaterOrEqual` the first node whose score is not greater. -/
